@@ -155,6 +155,7 @@ func (s *Server) servePacket(pc net.PacketConn) error {
 					// the old one shutting down.
 				}(conn)
 			}
+			verifPoint("udp.loop.send")
 			conn.readCh <- &pkt
 		}
 	}
@@ -166,6 +167,7 @@ func (s *Server) handle(conn net.Conn) {
 	buf := bufPool.Get().([]byte)
 	buf = buf[:0]
 	defer bufPool.Put(buf)
+	defer verifBufRelease(buf)
 
 	cx := WrapConnection(conn, buf, s.logger)
 
@@ -325,6 +327,7 @@ func (pc *packetConn) Read(b []byte) (n int, err error) {
 	// Although Close() also does this, we inform the server loop early about
 	// the closure to ensure that if any new packets are received from this
 	// connection in the meantime, a new handler will be started.
+	verifPoint("udp.idle")
 	pc.closeCh <- pc.addr.String()
 	// Returning EOF here ensures that io.Copy() waiting on the downstream for
 	// reads will terminate.
@@ -336,6 +339,7 @@ func (pc *packetConn) Write(b []byte) (n int, err error) {
 }
 
 func (pc *packetConn) Close() error {
+	verifPoint("udp.close")
 	if pc.lastPacket != nil {
 		udpBufPool.Put(pc.lastPacket.pooledBuf)
 		pc.lastPacket = nil
